@@ -166,6 +166,21 @@ def check_duration_views(ctx: Ctx, rr: RuleResult) -> None:
                     rr.fail(f.qual, f"one expression combines `{base}.{sorted(at & TRUNC_VIEW)[0]}` (truncated view) with `{base}.{sorted(at & FLOOR_VIEW)[0]}` (floor view): for negative durations with a time part the two views are one day apart", ctx.loc(f, st))
                 else:
                     rr.ok({"fn": f.qual, "view": "floor" if at & FLOOR_VIEW else "truncated"})
+        # ordering / equality / hashing functions compare the day part first and the time part next, in separate statements:
+        # there the whole function must stay within one view of each operand
+        if f.name in ("compare_to", "__lt__", "__le__", "__gt__", "__ge__", "__eq__", "__hash__", "_compare_to") and f.cls is not None and f.cls.name == "Duration":
+            uses_f: dict[str, set[str]] = {}
+            for n in own_nodes(f.node):
+                if isinstance(n, ast.Attribute) and n.attr in FLOOR_VIEW | TRUNC_VIEW:
+                    uses_f.setdefault(unparse(n.value), set()).add(n.attr)
+            for base, at in uses_f.items():
+                if len(at) < 2:
+                    continue
+                rr.inst()
+                if at & FLOOR_VIEW and at & TRUNC_VIEW:
+                    rr.fail(f.qual, f"{f.name} takes `{base}.{sorted(at & TRUNC_VIEW)[0]}` (truncated view) and `{base}.{sorted(at & FLOOR_VIEW)[0]}` (floor view) of the same duration: negative durations are ordered wrongly", ctx.loc(f))
+                else:
+                    rr.ok({"fn": f.qual, "view": "floor" if at & FLOOR_VIEW else "truncated"})
 
 
 def _make_views(prop: str, rid: str):
@@ -862,6 +877,7 @@ SHARED = {
     "C07": [("c08", "r08_7_embedded_fields"), ("c17", "r17_8_variable_precision_predicates"), ("c08", "r08_10_field_set_tests"), ("c17", "r17_7_sign_predicates")],
     "C05": [("c01", "r01_cfp_calendar_free_productions"), ("c04", "r04_12_cache_periods_stay_in_range"), ("c13", "r13_2_zone_interval_cache")],
     "C10": [("c03", "r03_6_rounding_helpers_exact")],
+    "C08": [("c09", "r09_17_computed_values_overflow")],
     "C13": [("c01", "r01_2_registry"), ("c19", "r19_2_lockset")],
     "C19": [("c13", "r13_2_zone_interval_cache"), ("c03", "r03_9_untrusted_guard"), ("c06", "r06_11_fixed_zone_table")],
 }
